@@ -767,6 +767,9 @@ func (e *Exec) protectedChans(st *State) []string {
 			}
 			prot := firstField(d.Arg[i+len("closedby "):])
 			ok := false
+			if strings.HasPrefix(prot, "func:") && strings.HasSuffix(e.fname, "."+strings.TrimPrefix(prot, "func:")) {
+				ok = true // closed only by this (single-instance) function; checked by the discipline pass
+			}
 			for _, h := range st.held {
 				if h.Owner == owner && h.Obj == obj && h.Field == prot && !h.Read {
 					ok = true
@@ -785,6 +788,12 @@ func (e *Exec) protectedChans(st *State) []string {
 	}
 	for _, h := range st.held {
 		consider(h.Owner, h.Obj)
+	}
+	fr0 := st.frames[0]
+	for _, p := range fr0.fn.Params {
+		if pt, ok := p.Type().Underlying().(*types.Pointer); ok && isStruct(pt.Elem()) {
+			consider(namedKey(pt.Elem()), fr0.params[p.Name()].T[0])
+		}
 	}
 	for k := range st.casWon {
 		// k = (|sub.Owner.field| obj)
